@@ -155,7 +155,7 @@ def _data(rng, kind, what=None):
                 'what': 'invalid'}
     if kind == 'gmv':
         sp = zoo.rand_table_spec(rng, 2, 4, 30, 80, constant_p=0.3 if what == 'const' else 0.05)
-        sp['what'] = 'const' if 'constant' in sp['margs'] else 'good'
+        sp['what'] = 'const' if any(m.startswith('constant') for m in sp['margs']) else 'good'
         return sp
     sp = zoo.rand_table_spec(rng, 2, 6, 40, 70, constant_p=0.0,
                              margs=['normal', 'gamma', 'beta', 'uniform'],
@@ -171,6 +171,20 @@ def _data(rng, kind, what=None):
 def generate(rng, tier, idx):
     subj = _subject(rng)
     kind = subj['kind']
+    if rng.random() < 0.35:
+        subj['pos'] = rng.choice([1, 2])
+        if zoo.short(subj['cls']) in ('GaussianKDE', 'TruncatedGaussian', 'GaussianMultivariate') \
+                and rng.random() < 0.5:
+            # make sure there is a keyword argument next to the positional one
+            extra = {'GaussianKDE': ('bw_method', 'silverman'),
+                     'TruncatedGaussian': ('maximum', 95.0),
+                     'GaussianMultivariate': ('random_state', 4)}[zoo.short(subj['cls'])]
+            if zoo.short(subj['cls']) == 'GaussianKDE':
+                subj['ctor'].setdefault('sample_size', 25)
+            if zoo.short(subj['cls']) == 'TruncatedGaussian':
+                subj['ctor'].setdefault('minimum', -70.0)
+                subj['pos'] = 1
+            subj['ctor'].setdefault(*extra)
     ops = []
     if rng.random() < 0.35:
         ops.append({'op': 'misuse'})
@@ -183,6 +197,8 @@ def generate(rng, tier, idx):
         if 'switch' in repr(subj['ctor']) and rng.random() < 0.4:
             op['arm'] = True
         ops.append(op)
+        if rng.random() < 0.45:
+            ops.append({'op': 'use', 'seed': rng.randrange(1000)})
         if rng.random() < 0.25:
             ops.append({'op': 'get_instance',
                         'form': rng.choice(['name', 'class', 'instance', 'fresh_instance',
@@ -266,8 +282,21 @@ def _has_switch(v):
     return v is SwitchMarginal or (isinstance(v, list) and any(x is SwitchMarginal for x in v))
 
 
+LEADING = {'GaussianKDE': ['sample_size'], 'TruncatedGaussian': ['minimum', 'maximum'],
+           'Univariate': ['candidates'], 'GaussianMultivariate': ['distribution'],
+           'VineCopula': ['vine_type']}
+
+
 def _fresh(subj):
-    return zoo.load_class(subj['cls'])(**_decode_ctor(subj['ctor']))
+    """Fresh object; subj['pos'] leading constructor arguments are passed positionally (a
+    prototype may have been built with any mix of positional and keyword arguments)."""
+    ctor = _decode_ctor(subj['ctor'])
+    args = []
+    for name in LEADING.get(zoo.short(subj['cls']), [])[:subj.get('pos', 0)]:
+        if name not in ctor:
+            break
+        args.append(ctor.pop(name))
+    return zoo.load_class(subj['cls'])(*args, **ctor)
 
 
 def _fit(model, subj, data, state, poison, pseed, arm):
@@ -422,7 +451,27 @@ def execute(run):
             continue
         if op['op'] == 'get_instance':
             _get_instance(ctx, run, subj, live, op, n_fit_ok)
+        if op['op'] == 'use':
+            # the live object is *used* between fits (queries and samples populate whatever
+            # caches it keeps); outputs are ignored here - the next refit is compared with a
+            # fresh fit
+            ctx.probes['live_object_used_between_fits'] += 1
+            with sterile(op['seed']), Poison('zero'):
+                for name, thunk in obs.misuse_calls(live, kind, _ncols(last_good)):
+                    outcome(thunk)
+                if kind == 'gmv' and last_good is not None and n_fit_ok:
+                    cols = list(getattr(live, 'columns', []) or [])
+                    if len(cols) >= 2:
+                        outcome(live.sample, 2, conditions={cols[0]: 0.1})
+                        outcome(live.sample, 2, conditions={cols[-1]: 0.2, cols[0]: 0.3})
+            ctx.event('use')
     return ctx.result()
+
+
+def _ncols(dataspec):
+    if dataspec and dataspec.get('kind') == 'table':
+        return len(dataspec['margs'])
+    return 3
 
 
 def _get_instance(ctx, run, subj, live, op, n_fit_ok):
